@@ -83,6 +83,14 @@ def curated():
     return K
 
 
+def long_link():
+    """beyond the 3-segment bound: one 12-segment link (two-digit segment indices), used by C04 and C11."""
+    t = Topo("x01_long12", ["A", "B", "C"], [L("L1", "A", "B", 12), L("L2", "B", "C", 2, (1,))],
+             {"A": ("O1", "ramp_out")}, {"C": ("D1", "cong")}, delta=True)
+    assert t.spec_valid()
+    return t
+
+
 # ----------------------------------------------------------------------------------------
 ORIGIN_ROT = ("ideal", "ramp_out", "main", "simp_lim", "ramp_in", "simp_unl")
 RAMP_ROT = ("ramp_out", "simp_lim", "ramp_in", "simp_unl")
